@@ -22,8 +22,10 @@
  * the middle, a writer may hand over an immutable memtable in the middle
  * (VP_IMM: the REAL ldb_compact_memtable, ldb_write_level0_table and
  * ldb_remove_obsolete_files then run inside the loop, over stubs: the flush
- * yields no table or fails; the flush obligations decide that code), other threads publish sequence numbers and take / release
- * snapshots whenever the mutex is free.
+ * yields no table or fails; the flush obligations decide that code), other
+ * threads publish sequence numbers and take / release snapshots whenever the
+ * mutex is free.  VP_EXACT 0 leaves out the restated drop rule (and the
+ * lemmas derived from it), so that the fold equality alone decides.
  *
  *   C01.c / C06.b  for EVERY sequence S >= smallest_snapshot (every live
  *          snapshot, every snapshot taken later, the present) and every user
@@ -72,6 +74,9 @@
 #define VP_ENV 1        /* other threads move last_sequence / snapshots while the mutex is free */
 #endif
 
+#ifndef VP_EXACT
+#define VP_EXACT 1      /* 0: only the fold equality speaks about what is dropped */
+#endif
 #ifndef VP_NOFREE
 #define VP_NOFREE 0     /* 1: ldb_free is a no-op (kit/vp_alloc_d4.c), iterators are static objects */
 #endif
@@ -117,7 +122,7 @@ static uint64_t deeper_seq[2];
 static int base_ans[2];                /* the oracle's answer for the key */
 
 typedef struct vp_cur_s {
-  int kind;                            /* 0 compaction input, 1 verification re-open */
+  int kind;                            /* 0 compaction input, 1 verification re-open, 2 memtable (flush) */
   int pos;
 } vp_cur_t;
 
@@ -1115,9 +1120,11 @@ harness(void) {
           shadowed = 1;
       obsolete = in_type[i] == 0 && in_seq[i] <= smallest && base_ans[in_u[i]];
       expect = !(shadowed || obsolete);
+#if VP_EXACT
       VP_ASSERT(rec_kept[i] == expect, "C01.c an entry is dropped iff a newer entry of its key is <= smallest_snapshot, or it is a tombstone <= smallest_snapshot with no deeper data");
       /* proved just above; handed to the solver as a lemma for the checks below */
       VP_ASSUME(rec_kept[i] == expect);
+#endif
       if (!rec_kept[i] && shadowed) w_shadow = 1;
       if (!rec_kept[i] && !shadowed) w_tomb = 1;
       if (rec_kept[i] && in_type[i] == 0 && in_seq[i] <= smallest && deeper[in_u[i]]) w_kepttomb = 1;
